@@ -80,6 +80,12 @@ class FrozenAttributes(Dict[str, Union[int, bool]]):
     def update(self, *args: Any, **kwds: Any) -> None:
         raise Exception("Cannot change value.")
 
+    def _cannot_change(self, *args: Any, **kwds: Any) -> Any:
+        raise Exception("Cannot change value.")
+
+    # the remaining in-place mutators of dict
+    __delitem__ = pop = popitem = clear = setdefault = __ior__ = _cannot_change  # type: ignore
+
     def extend(self, dictlike: Mapping[str, Union[int, bool]]) -> "FrozenAttributes":
         return FrozenAttributes(chain(self.items(), dictlike.items()))
 
